@@ -503,11 +503,12 @@ def rule_tt2_memory_units(report, prog, rule='C01-R6'):
     n = 0
     for fn, cmd, stride in (('_read_from_tag', 'read', 16), ('_write_to_tag', 'write', 4)):
         f = prog.func('nfc.tag.tt2.Type2TagMemoryReader.' + fn)
-        loops = [l for l in walk_no_nested(f.node) if isinstance(l, ast.While)]
-        if len(loops) != 1 or not isinstance(loops[0].test, ast.Compare) or not isinstance(loops[0].test.left, ast.Name):
-            report.deficits.append('%s: %s: single while loop over the byte index not found' % (rule, f.qname))
+        loops = [l for l in walk_no_nested(f.node) if isinstance(l, ast.For) and isinstance(l.iter, ast.Call) and norm(l.iter.func) == 'range'
+                 and len(l.iter.args) == 3 and isinstance(l.target, ast.Name)]
+        if len(loops) != 1:
+            report.deficits.append('%s: %s: single counting loop over the byte index not found' % (rule, f.qname))
             continue
-        var = loops[0].test.left.id
+        var = loops[0].target.id
         defs = {}
         for s in ast.walk(loops[0]):
             if isinstance(s, ast.Assign) and len(s.targets) == 1 and isinstance(s.targets[0], ast.Name) and s.targets[0].id != var:
@@ -534,10 +535,8 @@ def rule_tt2_memory_units(report, prog, rule='C01-R6'):
         n += 1
         report.check(xnode not in cfg.reachable(cfg.entry, avoid_nodes=[selnode]), rule, key(f.qname, 'sector selected before every %s' % cmd), f.loc(xfer[0]),
                      'a %s command can be sent without selecting the sector of its page first' % cmd)
-        steps = [s for s in live(loops[0].body) if isinstance(s, ast.AugAssign) and norm(s.target) == var]
         n += 1
-        report.check(len(steps) == 1 and isinstance(steps[0].op, ast.Add) and try_const(steps[0].value) == stride and
-                     not any(isinstance(s, (ast.Continue,)) for s in ast.walk(loops[0])), rule,
+        report.check(try_const(loops[0].iter.args[2]) == stride and not any(isinstance(s, ast.Continue) for s in ast.walk(loops[0])), rule,
                      key(f.qname, 'index advances by %d per iteration' % stride), f.loc(loops[0]),
                      'loop stride is not the %d octets one %s command moves' % (stride, cmd))
     # the sector the tag object believes to be selected is the sector the tag has selected: the belief is updated only after the
